@@ -56,7 +56,7 @@ func init() {
 		})
 	clusterCheck("C02",
 		func() []Unit {
-			return scUnits(1, "write3", "write3-pipe", "crash3", "snap3", "snap3-pipe", "snap3-trail1", "snap3-mono", "stale-suffix", "majority-restart", "member")
+			return scUnits(1, "write3", "write3-pipe", "crash3", "snap3", "snap3-pipe", "snap3-trail1", "snap3-mono", "stale-suffix", "majority-restart", "member", "rcl3-snap")
 		},
 		func() []Unit {
 			return scUnits(2, "write3", "write3-pipe", "crash3", "snap3", "snap3-pipe", "snap3-trail1", "snap3-mono", "stale-suffix", "majority-restart", "member", "fig8", "transfer")
@@ -98,10 +98,10 @@ func init() {
 		})
 	clusterCheck("C10",
 		func() []Unit {
-			return scUnits(1, "write3", "crash3", "majority-restart", "member", "snap3", "snap3-mono")
+			return scUnits(1, "write3", "crash3", "majority-restart", "member", "snap3", "snap3-mono", "rcl1", "rcl3", "rcl3-snap", "rcl1-many", "rcl1-130")
 		},
 		func() []Unit {
-			return scUnits(2, "write3", "crash3", "majority-restart", "member", "snap3", "snap3-mono", "stale-suffix")
+			return scUnits(2, "write3", "crash3", "majority-restart", "member", "snap3", "snap3-mono", "stale-suffix", "rcl1", "rcl3", "rcl3-snap", "rcl1-many", "rcl1-130")
 		})
 	clusterCheck("C11",
 		func() []Unit {
